@@ -34,6 +34,8 @@ POOLS = {
     "kwparent": ["type", "ns:a", "a-b", "loop"],
     # literals equal to the identifier the renderer derives for a keyword-named sibling: <parent>_<keyword>
     "kwsibling": ["item", "type", "item_type"],
+    # (element, child) pairs that read the same once joined with "_": (a, b_type) and (a_b, type)
+    "kwjoin": ["a", "a_b", "b_type", "type"],
     "caseruns": ["HTTPResponse", "httpResponse", "HttpResponse", "VendorRateID"],
     "prefixed": ["ns:a", "a", "x:a"],
     "nonascii": ["д", "Д", "é", "ß", "SS"],
@@ -48,7 +50,7 @@ POOLS = {
     "suffixgap": ["foo", "Foo", "FOO", "foo_3"],
     "attrcase": ["ID", "Id", "item"],
 }
-ATTRS = {"digitlocal": ["type", "n:2b"], "attrsame": ["a", "b"], "kwparent": ["type", "loop"], "kwsibling": ["item_type", "type"], "keywords2": ["type", "ref"], "keywords3": ["in", "use"], "keywords4": ["enum", "static"], "keywords5": ["for", "let"],
+ATTRS = {"kwjoin": ["type", "b_type"], "digitlocal": ["type", "n:2b"], "attrsame": ["a", "b"], "kwparent": ["type", "loop"], "kwsibling": ["item_type", "type"], "keywords2": ["type", "ref"], "keywords3": ["in", "use"], "keywords4": ["enum", "static"], "keywords5": ["for", "let"],
          "keywords6": ["mod", "pub"], "keywords7": ["struct", "true"], "keywords8": ["where", "while"], "keywords9": ["virtual", "yield"],
          "digits": ["a1", "A1"], "suffixlit": ["foo", "foo_attr"], "suffixgap": ["foo"], "xmlnsish": ["xml:lang", "x:p", "xmlns:n", "xmlnsx:q"], "attrcase": ["id", "Id"], "default": ["p"], "fields": ["text", "type"], "fields2": ["p", "type"], "prefixed": ["xmlns:n", "n:p"]}
 
